@@ -7,7 +7,7 @@ one() {
   d=$1; id=$(basename $d)
   # take a free slot (its scratch target directory and fact directory are exclusively ours while we hold the lock)
   while :; do
-    for slot in 0 1 2 3 4 5; do
+    for slot in 0 1 2 3 5 6; do
       exec 9>.work/evalslot.$slot
       if flock -n 9; then break 2; fi
     done
